@@ -29,9 +29,14 @@ class S(System):
                 act()
 
 
+class SysId(str):
+    """identifiers that are strings without being exactly `str` (str-based enum members, numpy.str_, ... behave alike)"""
+
+
 def _queue(m, ps, frequency=1):
     """I1 pre-state built through the API (registration order = index order)."""
-    ss = [S("s%d" % i, m, ps[i], frequency) for i in range(len(ps))]
+    mk = SysId if hx.P.get('str_ids') else str
+    ss = [S(mk("s%d" % i), m, ps[i], frequency) for i in range(len(ps))]
     for s in ss:
         m.systems.add_system(s)
     return ss
@@ -201,6 +206,7 @@ def obligations(tier):
     parts += [{"n": 2, "kinds": [k], "multi": True} for k in ("self", "remove", "add", "replace")]
     parts += [{"n": 2, "kinds": [k], "other_model": True} for k in ("self", "remove", "replace")]
     parts += [{"n": 2, "kinds": ks, "sparse": True} for ks in (["add"], ["replace"], ["add", "add"])]
+    parts += [{"n": 2, "kinds": [k], "str_ids": True} for k in ("self", "remove", "replace")]
     if tier != "quick":
         parts += [{"n": 3, "kinds": [a, b], "multi": True} for a, b in two] + [{"n": 3, "kinds": [a, b], "other_model": True} for a, b in two]
 
